@@ -96,11 +96,35 @@ func funcID(f *types.Func) string {
 
 // hopID builds the funcID of a module function: hopID("transport","Server","readPacket").
 func hopID(rel, typ, name string) string {
-	if typ == "" {
-		return modPath + "/" + rel + "." + name
+	id := modPath + "/" + rel + "." + name
+	if typ != "" {
+		id = "(" + modPath + "/" + rel + "." + typ + ")." + name
 	}
-	return "(" + modPath + "/" + rel + "." + typ + ")." + name
+	if P := curProgram; P != nil {
+		if !P.knownFuncID(id) {
+			// the name is gone: if the rules' reference tree had it, look for it under its new name
+			for _, n := range []string{name, "(*" + typ + ")." + name, typ + "." + name} {
+				if typ == "" && n != name {
+					continue
+				}
+				if typ != "" && n == name {
+					continue
+				}
+				if fn := P.reidentifyFunc(rel, n); fn != nil {
+					if fo, ok := fn.Object().(*types.Func); ok {
+						return funcID(fo)
+					}
+				}
+			}
+		} else {
+			recordIDAnchor(P, rel, typ, name)
+		}
+	}
+	return id
 }
+
+// curProgram is the program being checked (set by NewCtx): hopID consults it to follow renames.
+var curProgram *Program
 
 // isCall reports whether ins is a call (not go/defer unless any) to one of ids.
 func isCall(ins ssa.Instruction, ids ...string) bool {
